@@ -20,8 +20,11 @@ RULE = ("P (plan capture): for random requests (subsets of count / mean / var / 
 TRUSTED = ["hand model model/ReadPlan.v tied by plan capture (tools/plans.py recorders)", "denotation of plans (lib/PlanSem.v) = "
            "what the engines compute: validated on the five executable backends only", "ibis native var/cov(how='sample') "
            "mean what ibis documents (no installed backend implements both)"]
-ASSUMES = ["C01_error_bound_partial: the rounding-error bound is validated against exact rationals (offset stress), not proved",
-           "alias_injective: generated aliases (_cov__a__b) of distinct requests do not collide (see known finding)"]
+ASSUMES = ["C01_engine_partial: that each of the five engines evaluates a captured plan as lib/PlanSem.v reads it (window mean over the "
+           "partition, GROUP BY, one output row per group) is validated by the exact differential, not proved",
+           "C01_error_bound_partial: the rounding-error bound is validated against exact rationals (offset stress), not proved",
+           "naming hypotheses of the denotation theorem: data columns are not named like generated aliases; covariance aliases "
+           "(_cov__a__b) of distinct requests do not collide (see known finding)"]
 
 COLS = ["x", "y", "z", "w"]
 
